@@ -228,6 +228,7 @@ def run(ctx: Ctx) -> None:
         hash_seeds(ctx, td, files)
         overlapping_arguments(ctx, td)
         configured_cache(ctx, td)
+        recursion_limit_files(ctx, td)
     finally:
         shutil.rmtree(td, ignore_errors=True)
     ctx.resolve_broken({"translate is_ignored_via_amend (iteration over the set settings.ignore)": "history:", "amend_order_irrelevant": "history:", "amend_translated_is_the_model": "history:",
@@ -470,3 +471,39 @@ def configured_cache(ctx: Ctx, td: str) -> None:
                 ctx.report(f"cache-config:{label}:{tag}", f"cache directory configured by {label}: run '{bad[0]}' prints a different report for app.py than run '{ref[0]}' (same files, same settings)",
                            {"config": label, "app.py": CACHE_APP, "shapes.py": CACHE_LIB, "runs": [{"run": r[0], "status": r[1], "report": r[2]} for r in group],
                             "steps": "cold, repeat, append a comment to shapes.py, repeat, name shapes.py too, remove the cache, repeat; then change greet()'s default and compare with a fresh directory"})
+
+
+def recursion_limit_files(ctx: Ctx, td: str) -> None:
+    """Files whose traversal exhausts the interpreter's recursion limit at different depths (refurb goes on with the next file), next to
+    ordinary ones: what is reported for each file is the same whatever comes before it, after it, or alone."""
+    d = Path(td) / "deep"
+    d.mkdir()
+    srcs = {"shallow.py": "x = int(0)\ny = x in (1,)\n"}
+    for n in (250, 400, 700, 900):
+        srcs[f"chain{n}.py"] = "a = 1\nfirst = int(0)\ntotal = a" + " + a" * n + "\nlast = a in (1,)\nnums = [1]\nnums.append(2)\nnums.append(3)\n"
+    for name, text in srcs.items():
+        (d / name).write_text(text)
+    names = sorted(srcs)
+    orders = [[n] for n in names] + [["chain400.py", "chain700.py"], ["chain700.py", "chain400.py"], ["chain250.py", "chain900.py", "shallow.py"], ["chain900.py", "shallow.py", "chain250.py"],
+              ["shallow.py", "chain700.py", "chain400.py"], ["chain700.py", "shallow.py", "chain400.py", "chain250.py"], names, names[::-1]]
+    jobs = [{"id": f"deep{i}", "files": [str(d / n) for n in o], "mode": "all", "extra": {"sort_by": "filename"}} for i, o in enumerate(orders)]
+    res = run_jobs(jobs, workers=len(jobs))          # one fresh process per order
+    alone = {}
+    for i, o in enumerate(orders):
+        r = res.get(f"deep{i}", {})
+        out = r.get("out")
+        ctx.case(("recursion-limit-files", tuple(o)), nontrivial=True)
+        ctx.count("recursion-limit-orders")
+        if out is None:
+            ctx.report("file-order-matters:recursion-limit:crash", f"checking {o} fails: {str(r.get('error'))[:200]}", {"order": o})
+            continue
+        per = {n: sorted({tuple(x) for x in out if Path(x[0]).name == n}) for n in set(o)}
+        if len(o) == 1:
+            alone[o[0]] = per[o[0]]
+            continue
+        for n in sorted(set(o)):
+            if n in alone and per[n] != alone[n]:
+                ctx.report("file-order-matters:recursion-limit", f"{n} checked in the order {o} gets {len(per[n])} diagnostics, alone it gets {len(alone[n])}",
+                           {"order": o, "file": n, "alone": [list(x[1:]) for x in alone[n]], "in_this_order": [list(x[1:]) for x in per[n]],
+                            "content": "a = 1; first = int(0); total = a + a + ... (N terms); last = a in (1,); nums = [1]; nums.append(2); nums.append(3)"})
+                break
